@@ -302,6 +302,25 @@ class StdlibMixin:
                     return self.stdlib_instantiate(obj, items, {}, n, f)
                 return Builtin("_make", make)
             return _NO
+        if isinstance(obj, ChainMapVal):
+            I = self
+
+            def merged():
+                out = {}
+                for m in reversed(obj.maps):
+                    out.update(m)
+                return out
+            if name == "maps":
+                return obj.maps
+            if name == "parents":
+                return ChainMapVal(obj.maps[1:])
+            if name == "new_child":
+                return Builtin("ChainMap.new_child", lambda a, k, n, f: ChainMapVal([a[0] if a else (k.get("m") or {})] + obj.maps))
+            if name in ("get", "keys", "values", "items", "copy"):
+                if name == "copy":
+                    return Builtin("ChainMap.copy", lambda a, k, n, f: ChainMapVal([dict(obj.maps[0])] + obj.maps[1:]))
+                return self.method_of(merged(), name, node, frame)          # read-only views of the merged mapping
+            raise AnalysisError("unmodelled-stdlib", "ChainMap.%s used at %s" % (name, frame.where(node)))
         if isinstance(obj, PartialVal):
             if name == "func":
                 return obj.fn
@@ -484,6 +503,57 @@ class StdlibMixin:
             return _NO
         if name == "dataclasses.fields" and len(args) == 1:
             return self.dataclass_fields(args[0], node, frame)
+        if name == "collections.ChainMap":
+            maps = list(args)
+            if not all(isinstance(m, (dict, ChainMapVal)) and "**" not in (m if isinstance(m, dict) else {}) for m in maps):
+                raise AnalysisError("unmodelled-stdlib", "collections.ChainMap over a mapping the analysis does not lay out at %s" % frame.where(node))
+            flat = []
+            for m in maps:
+                flat.extend(m.maps if isinstance(m, ChainMapVal) else [m])
+            return ChainMapVal(flat)
+        if name == "collections.defaultdict":
+            d = DefaultDictVal()
+            d.factory = args[0] if args else None
+            if len(args) > 1:
+                src = args[1]
+                if not isinstance(src, dict):
+                    raise AnalysisError("unmodelled-stdlib", "defaultdict from a non-dict at %s" % frame.where(node))
+                d.update(src)
+            d.update(kwargs)
+            return d
+        if name == "contextlib.suppress":
+            return SuppressVal(args)
+        if top == "inspect" and len(args) == 1 and leaf in ("isclass", "isfunction", "ismethod", "isabstract", "ismodule"):
+            v = args[0]
+            if isinstance(v, (Unknown, SymAny)):
+                return _NO
+            if leaf == "isclass":
+                return isinstance(v, (ClassVal, EnumVal))
+            if leaf == "isfunction":
+                return isinstance(v, FuncVal)
+            if leaf == "ismethod":
+                return isinstance(v, BoundMethod)
+            if leaf == "ismodule":
+                return isinstance(v, ModuleVal)
+            if not isinstance(v, ClassVal):
+                return False
+            # abstract: a method marked @abstractmethod that no class further down the MRO overrides (only for classes with
+            # ABCMeta behaviour: derived from abc.ABC)
+            if not any(isinstance(b, External) and b.name in ("abc.ABC",) for c in v.mro() if isinstance(c, ClassVal) for b in c.bases):
+                return False
+            for c in v.mro():
+                if not isinstance(c, ClassVal) or c.node is None:
+                    continue
+                for st in c.node.body:
+                    if isinstance(st, (ast.FunctionDef,)) and any("abstractmethod" in ast.unparse(d) for d in st.decorator_list):
+                        impl, owner = v.lookup(st.name)
+                        if owner is c:
+                            return True
+            return False
+        if name == "collections.deque":
+            if len(args) > 1 or kwargs.get("maxlen") is not None:
+                raise AnalysisError("unmodelled-stdlib", "collections.deque with a maximum length at %s" % frame.where(node))
+            return DequeVal(self.need_items(args[0], "collections.deque", node, frame) if args else [])
         if name == "enum.auto" and not args:
             return AutoVal()
         if name == "enum.unique" and len(args) == 1:
